@@ -686,6 +686,22 @@ def F43():
                 f"{'unchanged' if x['file_unchanged'] else 'CHANGED'} ({len(found)} such calls)")
 
 
+def F44():
+    from enum import Enum
+
+    class Unit(str, Enum):
+        ON = "on"
+    d = tempfile.mkdtemp()
+    path = os.path.join(d, "db.csv")
+    db = TinyFlux(path)
+    db.insert(Point(time=T0, measurement=Unit.ON, tags={Unit.ON: Unit.ON}, fields={Unit.ON: 1.0}))
+    db.close()
+    p = TinyFlux(path).all()[0]
+    got = (p.measurement, dict(p.tags), dict(p.fields))
+    if got != ("on", {"on": "on"}, {"on": 1.0}):
+        return f"a point whose strings are members of a str-mixin enum (text 'on') reads back from CSV as {got}"
+
+
 ALL = [k for k in list(globals()) if re.fullmatch(r"F\d+[a-c]?", k)]
 
 if __name__ == "__main__":
